@@ -18,10 +18,10 @@ for pid in sorted(checks_config.CHECKS):
         "level_claimed": {
             "category": "model_checking",
             "text": spec.get("level_text", "Bounded symbolic execution of the real SSA of the functions the property is anchored in: inputs are SMT bit-vector variables, every harness assertion and every implicit runtime check (index, slice, nil, division, make, explicit panic, loop unwinding) is an SMT query over all values within the stated bounds; counterexamples are replayed natively before being reported. Holds for all inputs within the bounds listed in the evidence, says nothing outside them."),
-            "design_ref": spec.get("design_ref", "DESIGN.md §5 " + pid),
+            "design_ref": spec.get("design_ref", "DESIGN.md Part I, I.3 (row %s) as built; Part II, section 5 %s for the original plan" % (pid, pid)),
         },
         "level_note": spec.get("level_note", "Trusted: go/ssa (x/tools v0.29.0), gosym interpreter and intrinsic models (validated per run by replaying solver-produced path inputs and random mutants natively and in the engine's concrete mode), z3 5.1.0. Bounds: " + spec.get("bounds", {}).get("quick", "")),
-        "technique": spec.get("technique", "SMT-based bounded symbolic execution of Go SSA (gosym + z3), differential against spec reference models, native replay of models"),
+        "technique": spec.get("technique", "SMT-based bounded symbolic execution of the real Go SSA (gosym + z3 5.1.0; the query log of one harness per run re-decided by z3 4.8.12 and cvc5), differential against specification reference models, native replay of solver models before anything is reported"),
     })
 m = {
     "version": 1,
